@@ -17,8 +17,9 @@
    are conjoined primed, so a step that lets a non-family exception through an API boundary, lets a
    member failure out of the member layer, wraps into the wrong class or produces a wrong CLI outcome
    is NOT ENABLED and the trace is rejected at that event.
-   There is no action for "Timeout" and none for "WorkerDied": an execution that had to be killed is
-   rejected at that event (termination clause).                                              *)
+   There is no action for "Timeout", "WorkerDied" or "LoopOverrun": an execution that had to be killed
+   (CPU / wall budget), whose process died, or in which one `while` loop of the library iterated more
+   than 256 * len(input) + 2^20 times (progress monitor) is rejected at that event (termination clause). *)
 EXTENDS Surface, Json, IOUtils, TLCExt
 
 Traces == JsonDeserialize(IOEnv.TRACE_FILE)
